@@ -25,6 +25,15 @@
 //! * `bif-named` impl ⊨ spec: a bound function / number / context entry / formal parameter / iteration variable named like
 //!              every built-in function (`Dmn.Gen.bifNames`, regenerated from feel/src/bif.rs) used as callee
 //!              (positional, named) and as operand denotes the bound value; expectations known outright.
+//! * `name-char-ranges` impl ⊨ spec: the first, last, just-before and just-after code point of every range of name
+//!              characters (tables regenerated from lexer.rs by translate/namechars.py AND the grammar's tables written
+//!              out in `Dmn.NameGrammar`), random code points inside and between the ranges: where a name starts,
+//!              continues and ends (the hook), and the value of bound and introduced names written with the character
+//!              alone, at the start, inside and at the end of a word (expectations known outright).
+//! * `declared` impl ⊨ spec: every way a name gets into the scope besides `Name::new`: `parse_longest_name`, the keys of
+//!              a context text (`evaluate_context`) and of a context literal, the `name` attributes of a DMN model (input
+//!              data, required decision, item component) — every spelling of the declaration × every spelling of the
+//!              reference; the declared value must come out.
 //! * `history`  impl ⊨ spec: at the end of the run texts are evaluated again in their own scope (the specification's value
 //!              must come out again) and in the scope of another case, on this thread and on a fresh thread (equal).
 
@@ -1494,6 +1503,8 @@ pub fn run(cfg: &Cfg) -> Report {
   }
 
   lexfix_families(&mut rep, &mut model);
+  namechar_family(&mut rep, &mut model, &mut rng, thorough);
+  declared_family(&mut rep, &mut rng, thorough);
 
   rep.model_requests = model.requests;
   rep
@@ -1599,6 +1610,428 @@ fn lexfix_families(rep: &mut Report, model: &mut Model) {
     rep.hit("tokens:name-forms");
     if let Err((what, imp, exp)) = compare_streams(imp, a) {
       rep.disagree(Kind::ImplVsModel, "tokens", &format!("lexer token stream: {}", what), &format!("keys={:?} flags=(false, false, false, false) input={:?}", keys, text), &imp, &exp);
+    }
+  }
+}
+
+// ------------------------------------------------------------------------------------------
+// name-char-ranges: the first, last, just-before and just-after code point of every range of name characters
+// ------------------------------------------------------------------------------------------
+
+const SIG_NAME_CHAR_LEXER: &str = "a name does not start, continue or end where the name character ranges of the grammar (rules 28, 29) say";
+const SIG_NAME_CHAR_VALUE: &str = "a bound name written with a character at the edge of a range of name characters does not evaluate to its bound value";
+
+fn num(n: i128) -> Value {
+  Value::Number(FeelNumber::from_i128(n))
+}
+
+/// Family `name-char-ranges`. The code points are the edges (first, last, the one before, the one after) of every range
+/// of the tables regenerated from lexer.rs AND of the grammar's tables written out in `Dmn.NameGrammar`, plus random
+/// code points inside and outside; the expected classification is the grammar's (rules 28, 29, 61 of the DMN
+/// specification, as written out in Lean from the specification text), the expected values are known outright.
+fn namechar_family(rep: &mut Report, model: &mut Model, rng: &mut Rng, thorough: bool) {
+  let answer = model.ask("(c10 namechars)");
+  let parsed = Sexp::parse(&answer);
+  let lists = parsed.as_ref().and_then(|s| s.as_list());
+  let nums = |x: &Sexp| -> Vec<u32> { x.as_list().map(|l| l[1..].iter().filter_map(|a| a.as_atom().and_then(|a| a.parse().ok())).collect()).unwrap_or_default() };
+  let pairs = |x: &Sexp| -> Vec<(u32, u32)> {
+    x.as_list()
+      .map(|l| l[1..].iter().filter_map(|p| p.as_list().and_then(|p| Some((p.first()?.as_atom()?.parse().ok()?, p.get(1)?.as_atom()?.parse().ok()?)))).collect())
+      .unwrap_or_default()
+  };
+  let (mut cps, part_ranges) = match lists {
+    Some(l) if l.len() == 3 => (nums(&l[0]), pairs(&l[2])),
+    _ => {
+      rep.disagree(Kind::ImplVsModel, "name-char-ranges", "the tables of name characters are unreadable", "(c10 namechars)", &answer, "bounds, start ranges, part ranges");
+      return;
+    }
+  };
+  if cps.len() < 60 || part_ranges.len() < 16 {
+    rep.disagree(Kind::ImplVsModel, "name-char-ranges", "the tables of name characters are unreadable", "(c10 namechars)", &answer, "at least 60 edges of 16 ranges");
+    return;
+  }
+  // inside every range and in the gaps between them
+  let per_range = if thorough { 40 } else { 3 };
+  let mut prev_hi = 0u32;
+  for (lo, hi) in &part_ranges {
+    for _ in 0..per_range {
+      cps.push(lo + rng.below((hi - lo + 1) as u64) as u32);
+      if *lo > prev_hi + 1 {
+        cps.push(prev_hi + 1 + rng.below((lo - prev_hi - 1) as u64) as u32);
+      }
+    }
+    prev_hi = prev_hi.max(*hi);
+  }
+  for _ in 0..(if thorough { 2000 } else { 60 }) {
+    cps.push(rng.below(0x110000) as u32);
+  }
+  cps.retain(|c| char::from_u32(*c).is_some());
+  cps.sort();
+  cps.dedup();
+  let req = format!("(c10 classify {})", cps.iter().map(|c| c.to_string()).collect::<Vec<_>>().join(" "));
+  let ans = model.ask(&req);
+  let rows: Vec<(u32, Vec<bool>)> = Sexp::parse(&ans)
+    .and_then(|s| {
+      s.as_list().map(|l| l.iter().filter_map(|r| r.as_list().and_then(|r| Some((r.first()?.as_atom()?.parse().ok()?, r[1..].iter().map(|b| b.as_atom() == Some("true")).collect::<Vec<bool>>())))).collect())
+    })
+    .unwrap_or_default();
+  if rows.len() != cps.len() {
+    rep.disagree(Kind::ImplVsModel, "name-char-ranges", "driver-error", &req[..req.len().min(200)], &ans[..ans.len().min(200)], "one row per code point");
+    return;
+  }
+  let no_flags = (false, false, false, false);
+  for (c, cls) in rows {
+    let ch = char::from_u32(c).unwrap();
+    let (start, part, symbol, white) = (cls[0], cls[1], cls[2], cls[3]);
+    let class = match (start, part, symbol, white) {
+      (_, true, _, true) => "name character and white space",
+      (true, _, _, _) => "name start character",
+      (false, true, _, _) => "name part character",
+      (_, _, true, _) => "additional name symbol",
+      (_, _, _, true) => "white space",
+      _ => "other",
+    };
+    rep.hit(&format!("name-char-ranges:{}", class));
+    // ---- the lexer alone: `x<c>y + 1` with `x`, `y`, `x y` bound, and `x<c>y` bound when the grammar makes it a name
+    if class != "name character and white space" && class != "additional name symbol" && ch != '"' {
+      let text = format!("x{}y + 1", ch);
+      let scope = Scope::default();
+      scope.set_entry(&Name::from("x"), num(2));
+      scope.set_entry(&Name::from("y"), num(3));
+      scope.set_entry(&Name::new(&["x", "y"]), num(5));
+      let whole = format!("x{}y", ch);
+      let (want_name, want_pos) = match class {
+        "name start character" | "name part character" => {
+          scope.set_entry(&Name::from(whole.as_str()), num(7));
+          (whole.clone(), 3usize)
+        }
+        "white space" => ("x y".to_string(), 3),
+        _ => ("x".to_string(), 1),
+      };
+      rep.case(&format!("name-char-ranges|lexer|{:04X}", c), true);
+      let toks = impl_tokens(&scope, &text, no_flags, 3);
+      let got = match &toks {
+        Ok(ts) if ts.len() >= 2 => format!("{:?}", (ts[1].0 == TT::Name as i32, ts[1].1.clone(), ts[1].2)),
+        other => format!("{:?}", other),
+      };
+      let want = format!("{:?}", (true, format!("Name(Name({:?}))", want_name), want_pos));
+      if got != want {
+        rep.disagree(Kind::ImplVsSpec, "name-char-ranges", SIG_NAME_CHAR_LEXER, &format!("U+{:04X} ({}) in {:?}, bound: {:?}", c, class, text, sorted_keys(&scope)), &got, &want);
+      }
+    }
+    // ---- at the start of a name
+    if class == "name start character" || class == "name part character" || class == "other" {
+      let text = format!("{}x + 1", ch);
+      let scope = Scope::default();
+      scope.set_entry(&Name::from("x"), num(2));
+      let whole = format!("{}x", ch);
+      scope.set_entry(&Name::from(whole.as_str()), num(7));
+      rep.case(&format!("name-char-ranges|lexer-start|{:04X}", c), true);
+      let toks = impl_tokens(&scope, &text, no_flags, 3);
+      let first_is_whole = matches!(&toks, Ok(ts) if ts.len() >= 2 && ts[1].0 == TT::Name as i32 && ts[1].1 == format!("Name(Name({:?}))", whole) && ts[1].2 == 2);
+      let want = class == "name start character";
+      // digits, quotes, brackets and operators start tokens of their own; what matters is whether a NAME starts here
+      if first_is_whole != want {
+        rep.disagree(
+          Kind::ImplVsSpec,
+          "name-char-ranges",
+          SIG_NAME_CHAR_LEXER,
+          &format!("U+{:04X} ({}) at the start of {:?}, bound: {:?}", c, class, text, sorted_keys(&scope)),
+          &format!("{:?}", toks),
+          if want { "the bound name that starts with the character" } else { "no name that starts with the character" },
+        );
+      }
+    }
+    // ---- end to end: bound names, names introduced by the text
+    if class == "name start character" || class == "name part character" {
+      // the filler letters of the templates are `x` and `y` — other ones when the character itself is one of them
+      let (fx, fy) = (if ch == 'x' || ch == 'y' { "q" } else { "x" }, if ch == 'x' || ch == 'y' { "r" } else { "y" });
+      let w = |s: &str| s.replace('x', fx).replace('y', fy).replace('C', &ch.to_string());
+      let starts = class == "name start character";
+      // (name parts, value)
+      let mut bound: Vec<(Vec<String>, i128)> = vec![(vec![w("xC")], 7), (vec![w("xCx")], 11), (vec![w("x"), w("xC")], 13), (vec![w("xC"), "-".into(), w("xCx")], 17), (vec![w("x")], 100)];
+      let mut cases: Vec<(String, String)> = vec![
+        (w("xC"), "7".into()),
+        (w("xC + 1"), "8".into()),
+        (w("xC*xCx"), "77".into()),
+        (w("x xC - xC"), "6".into()),
+        (w("xC-xCx + 1"), "18".into()),
+        (w("xC - xCx+1"), "18".into()),
+        (w("[x, xC, xCx][2]"), "7".into()),
+        (w("if xC > 1 then xCx else 0"), "11".into()),
+        (w("{k: xCx}.k"), "11".into()),
+        (w("{xCy: 1, r: xCy + xC}.r"), "8".into()),
+        (w("for xCy in [1, 2] return xCy + xC"), "[8, 9]".into()),
+        (w("(function (xCy) xCy + xCx)(1)"), "12".into()),
+        (w("some xCy in [xC] satisfies xCy = 7"), "true".into()),
+      ];
+      if starts {
+        bound.push((vec![w("C")], 3));
+        bound.push((vec![w("Cx")], 5));
+        bound.push((vec![w("C"), w("x"), w("C")], 19));
+        bound.push((vec![w("C"), "/".into(), w("C")], 23));
+        cases.extend(vec![
+          (w("C"), "3".into()),
+          (w("C + Cx"), "8".into()),
+          (w("C*C"), "9".into()),
+          (w("C x C - C"), "16".into()),
+          (w("C/C + C / C"), "46".into()),
+          (w("[C][1]"), "3".into()),
+          (w("{Cy: 1, r: Cy + C}.r"), "4".into()),
+          (w("for Cy in [C] return Cy * 2"), "[6]".into()),
+          (w("(function (Cy) Cy + C)(1)"), "4".into()),
+        ]);
+      }
+      let scope = Scope::default();
+      for (parts, v) in &bound {
+        scope.set_entry(&name_of(parts), num(*v));
+      }
+      for (text, want) in cases {
+        rep.case(&format!("name-char-ranges|{}", text), true);
+        let got = eval_text(&scope, &text);
+        if got != want {
+          rep.disagree(Kind::ImplVsSpec, "name-char-ranges", SIG_NAME_CHAR_VALUE, &format!("U+{:04X} ({}): keys={:?} expression={:?}", c, class, sorted_keys(&scope), text), &got, &want);
+        }
+      }
+    }
+    // ---- the model's classes are the lexer's (the tie of the character tables)
+    let (mstart, mpart, mwhite) = (cls[4], cls[5], cls[6]);
+    if (mstart, mpart, mwhite) != (start, part, white) {
+      rep.disagree(
+        Kind::ImplVsModel,
+        "name-char-ranges",
+        "the lexer model's character classes differ from the grammar's",
+        &format!("U+{:04X}", c),
+        &format!("model: start={} part={} white={}", mstart, mpart, mwhite),
+        &format!("grammar: start={} part={} white={}", start, part, white),
+      );
+    }
+  }
+}
+
+// ------------------------------------------------------------------------------------------
+// declared: every way a name gets into the scope
+// ------------------------------------------------------------------------------------------
+
+const SIG_DECLARED_NAME: &str = "the name made from a declaration (parse_longest_name) is not the name the lexer reads in an expression";
+const SIG_DECLARED_VALUE: &str = "a name declared outside of the expression does not evaluate to its bound value";
+
+/// The normal form of a name (words separated by one space, no space around an additional symbol), written out from
+/// the parts — what both the declaration and every reference denote.
+fn canonical_text(parts: &[String]) -> String {
+  let mut s = String::new();
+  for (i, p) in parts.iter().enumerate() {
+    if i > 0 && !is_symbol(p) && !is_symbol(&parts[i - 1]) {
+      s.push(' ');
+    }
+    s.push_str(p);
+  }
+  s
+}
+
+/// Spellings of a name: every gap between two parts filled with one of `fills` (gaps between two words never with the
+/// empty text), optionally blanks in front and behind; at most `cap` of them, the canonical and the extreme ones first.
+fn spellings(rng: &mut Rng, parts: &[String], cap: usize, outer: bool) -> Vec<String> {
+  let gaps = parts.len().saturating_sub(1);
+  let word_gap = |i: usize| !is_symbol(&parts[i]) && !is_symbol(&parts[i + 1]);
+  let build = |fill: &dyn Fn(usize) -> &'static str, pre: &str, post: &str| {
+    let mut s = String::from(pre);
+    for (i, p) in parts.iter().enumerate() {
+      s.push_str(p);
+      if i < gaps {
+        s.push_str(fill(i));
+      }
+    }
+    s.push_str(post);
+    s
+  };
+  let mut out: Vec<String> = vec![];
+  let mut push = |s: String| {
+    if !out.contains(&s) {
+      out.push(s);
+    }
+  };
+  // canonical; blanks everywhere; blank only before every symbol; blank only after every symbol
+  push(build(&|i| if word_gap(i) { " " } else { "" }, "", ""));
+  push(build(&|_| " ", "", ""));
+  push(build(&|i| if word_gap(i) || is_symbol(&parts[i + 1]) { " " } else { "" }, "", ""));
+  push(build(&|i| if word_gap(i) || is_symbol(&parts[i]) { " " } else { "" }, "", ""));
+  push(build(&|i| if word_gap(i) { "   " } else { "\t" }, "", ""));
+  if outer {
+    push(build(&|i| if word_gap(i) { " " } else { "" }, " ", "  "));
+    push(build(&|_| "  ", "\t", " "));
+  }
+  let fills = ["", " ", "  ", "\t", "\u{00A0}"];
+  let mut guard = 0;
+  while out.len() < cap && guard < 4 * cap {
+    guard += 1;
+    let choice: Vec<&'static str> = (0..gaps).map(|i| if word_gap(i) { fills[1 + rng.below(4) as usize] } else { fills[rng.below(5) as usize] }).collect();
+    let s = build(&|i| choice[i], "", "");
+    if !out.contains(&s) {
+      out.push(s);
+    }
+  }
+  out.truncate(cap);
+  out
+}
+
+fn xml_text(s: &str) -> String {
+  s.replace('&', "&amp;").replace('<', "&lt;").replace('>', "&gt;").replace('"', "&quot;").replace('\t', "&#9;").replace('\u{00A0}', "&#160;")
+}
+
+const DMN_HEAD: &str = r#"<?xml version="1.0" encoding="UTF-8"?><definitions namespace="ns" name="m" id="_m" xmlns="https://www.omg.org/spec/DMN/20191111/MODEL/">"#;
+
+/// Family `declared`. A name reaches the scope through `Name::new` (the other families), through
+/// `parse_longest_name` (declared names of the model layer and the keys of the server's input), through the key of a
+/// context text (`evaluate_context`, context literals) and through the `name` attributes of a DMN model (input data,
+/// decisions, item components). Whatever the spelling of the declaration (blanks around the additional symbols,
+/// several blanks, tabs, blanks in front and behind), every spelling of a reference denotes the declared value.
+fn declared_family(rep: &mut Report, rng: &mut Rng, thorough: bool) {
+  use dmntk_model_evaluator::ModelEvaluator;
+  let s = |xs: &[&str]| xs.iter().map(|x| x.to_string()).collect::<Vec<String>>();
+  let mut names: Vec<Vec<String>> = vec![
+    s(&["Profit", "/", "Loss"]),
+    s(&["Tax", "-", "free", "amount"]),
+    s(&["a", "+", "b"]),
+    s(&["Applicant", "'", "s", "age"]),
+    s(&["first", ".", "second"]),
+    s(&["n", "*", "m", "2"]),
+    s(&["Full", "House"]),
+    s(&["é", "-", "ü", "Öl"]),
+    s(&["x1", "/", "x2", "-", "x3"]),
+    s(&["Monthly", "Salary", "+", "Bonus"]),
+  ];
+  let mut guard = 0;
+  let extra = if thorough { 60 } else { 6 };
+  while names.len() < 10 + extra && guard < 1000 {
+    guard += 1;
+    let p = gen_parts(rng);
+    // the words `date`, `time`, `duration` are names of literals for the lexer when nothing is bound
+    if p.len() >= 2 && !p.iter().any(|w| ["date", "time", "duration"].contains(&w.as_str())) && !names.contains(&p) {
+      names.push(p);
+    }
+  }
+  let (n_decl, n_ref) = if thorough { (24, 8) } else { (9, 4) };
+  for parts in &names {
+    let canonical = canonical_text(parts);
+    let first_word = parts[0].clone();
+    let decls = spellings(rng, parts, n_decl, true);
+    let refs = spellings(rng, parts, n_ref, false);
+    for decl in &decls {
+      // ---------------- (a) parse_longest_name
+      rep.case(&format!("declared|longest-name|{:?}", decl), true);
+      rep.hit("declared:parse_longest_name");
+      crate::util::note_case(decl);
+      let made = guarded(|| dmntk_feel_parser::parse_longest_name(decl).map(|n| n.to_string()).map_err(|e| e.to_string()));
+      if made != Ok(Ok(canonical.clone())) {
+        rep.disagree(Kind::ImplVsSpec, "declared", SIG_DECLARED_NAME, &format!("parse_longest_name({:?})", decl), &format!("{:?}", made), &format!("the name {:?}", canonical));
+      }
+      let scope_a = || {
+        let scope = Scope::default();
+        if let Ok(n) = dmntk_feel_parser::parse_longest_name(decl) {
+          scope.set_entry(&n, num(41));
+        }
+        // a competing shorter name: the first word alone
+        if let Ok(n) = dmntk_feel_parser::parse_longest_name(&first_word) {
+          scope.set_entry(&n, num(1000));
+        }
+        scope
+      };
+      // ---------------- (c) the key of a context text
+      let ctx_text = format!("{{{}: 41, {}: 1000}}", decl.trim(), first_word);
+      let scope_c = || match guarded(|| dmntk_feel_evaluator::evaluate_context(&Scope::default(), &ctx_text)) {
+        Ok(Ok(ctx)) => Some(Scope::from(ctx)),
+        _ => None,
+      };
+      for r in &refs {
+        for (tail, want) in [(" + 1", "42"), ("", "41")] {
+          let text = format!("{}{}", r, tail);
+          rep.case(&format!("declared|a|{:?}|{:?}", decl, text), true);
+          let got = eval_text(&scope_a(), &text);
+          if got != want {
+            rep.disagree(Kind::ImplVsSpec, "declared", SIG_DECLARED_VALUE, &format!("bound through parse_longest_name({:?}) = 41, parse_longest_name({:?}) = 1000; expression={:?}", decl, first_word, text), &got, want);
+          }
+          rep.hit("declared:evaluate_context");
+          rep.case(&format!("declared|c|{:?}|{:?}", decl, text), true);
+          let got = match scope_c() {
+            Some(scope) => eval_text(&scope, &text),
+            None => "the context text is refused".to_string(),
+          };
+          if got != want {
+            rep.disagree(Kind::ImplVsSpec, "declared", SIG_DECLARED_VALUE, &format!("scope made by evaluate_context({:?}); expression={:?}", ctx_text, text), &got, want);
+          }
+        }
+        // ---------------- (d) the key of a context literal inside the expression
+        let text = format!("{{{}: 41, r: {} + 1}}.r", decl.trim(), r);
+        rep.hit("declared:context literal");
+        rep.case(&format!("declared|d|{:?}", text), true);
+        let got = eval_text(&Scope::default(), &text);
+        if got != "42" {
+          rep.disagree(Kind::ImplVsSpec, "declared", SIG_DECLARED_VALUE, &format!("key of a context literal; expression={:?}", text), &got, "42");
+        }
+      }
+    }
+    // ---------------- (e) the model layer: input data, a required decision and an item component named by a declaration
+    let n_model = if thorough { decls.len() } else { 4 };
+    for decl in decls.iter().take(n_model) {
+      let r = rng.pick(&refs).clone();
+      let d = xml_text(decl);
+      let xml = format!(
+        concat!(
+          "{head}",
+          "<itemDefinition name=\"tRec\"><itemComponent name=\"{d}\"><typeRef>number</typeRef></itemComponent></itemDefinition>",
+          "<inputData name=\"{d}\" id=\"_i\"><variable name=\"{d}\" typeRef=\"number\"/></inputData>",
+          "<inputData name=\"Rec\" id=\"_rec\"><variable name=\"Rec\" typeRef=\"tRec\"/></inputData>",
+          "<decision name=\"FromInput\" id=\"_d1\"><variable name=\"FromInput\" typeRef=\"number\"/>",
+          "<informationRequirement id=\"_r1\"><requiredInput href=\"#_i\"/></informationRequirement>",
+          "<literalExpression><text>{r} + 1</text></literalExpression></decision>",
+          "<decision name=\"Q {d}\" id=\"_d2\"><variable name=\"Q {d}\" typeRef=\"number\"/>",
+          "<informationRequirement id=\"_r2\"><requiredInput href=\"#_i\"/></informationRequirement>",
+          "<literalExpression><text>{r} * 2</text></literalExpression></decision>",
+          "<decision name=\"FromDecision\" id=\"_d3\"><variable name=\"FromDecision\" typeRef=\"number\"/>",
+          "<informationRequirement id=\"_r3\"><requiredDecision href=\"#_d2\"/></informationRequirement>",
+          "<literalExpression><text>Q {r} + 1</text></literalExpression></decision>",
+          "<decision name=\"FromComponent\" id=\"_d4\"><variable name=\"FromComponent\"/>",
+          "<informationRequirement id=\"_r4\"><requiredInput href=\"#_rec\"/></informationRequirement>",
+          "<literalExpression><text>Rec</text></literalExpression></decision>",
+          "</definitions>"
+        ),
+        head = DMN_HEAD,
+        d = d,
+        r = xml_text(&r)
+      );
+      let built = guarded(|| dmntk_model::parse(&xml).map_err(|e| e.to_string()).and_then(|defs| ModelEvaluator::new(&defs).map_err(|e| e.to_string())));
+      let me = match built {
+        Ok(Ok(me)) => me,
+        other => {
+          rep.disagree(Kind::ImplVsSpec, "declared", SIG_DECLARED_VALUE, &format!("model with input data, decision and item component named {:?}", decl), &format!("{:?}", other.map(|r| r.map(|_| ()))), "a model evaluator");
+          continue;
+        }
+      };
+      // the caller binds the values under the names themselves (`Name::new` of the parts)
+      let mut input = FeelContext::default();
+      input.set_entry(&name_of(parts), num(41));
+      let mut rec = FeelContext::default();
+      rec.set_entry(&name_of(parts), num(5));
+      input.set_entry(&Name::from("Rec"), Value::Context(rec));
+      for (invocable, want) in [("FromInput", "42".to_string()), ("FromDecision", "83".to_string()), ("FromComponent", format!("{{{}: 5}}", canonical))] {
+        rep.hit(&format!("declared:model {}", invocable));
+        rep.case(&format!("declared|e|{:?}|{:?}|{}", decl, r, invocable), true);
+        let got = match guarded(|| me.evaluate_invocable(invocable, &input)) {
+          Ok(v) => canon(&v),
+          Err(p) => format!("panic: {}", p),
+        };
+        if got != want {
+          rep.disagree(
+            Kind::ImplVsSpec,
+            "declared",
+            SIG_DECLARED_VALUE,
+            &format!("DMN model: input data / decision `Q …` / item component declared as {:?}, referred to as {:?}, input bound under Name::new({:?}); invocable {}", decl, r, parts, invocable),
+            &got,
+            &want,
+          );
+        }
+      }
     }
   }
 }
